@@ -178,6 +178,7 @@ func checkC20(c CaseC20, info *Info) *Failure {
 		mxj.CastNanInf(true)
 		info.Class("CastNanInf in force")
 	}
+	bystanders()
 	doc := []byte(c.Doc.String())
 	dpath := strings.Join(c.DPath, ".")
 	vpath := pathString(c.Steps)
